@@ -4,6 +4,7 @@ Theorems about `close` / `_signal_closed` of the stream machine (`TornadoModel.C
 cause and regex engine, and about every step taken on a closed stream.
 -/
 import TornadoModel.C13.Lemmas
+import TornadoModel.C13.Once
 import TornadoModel.C11.Props
 namespace TornadoModel.C13
 open TornadoModel.C11
@@ -424,10 +425,49 @@ example : ReqIs (run stdR (init 4 100) [.readUntil [10] (some 9), .feed [97, 10,
 example : Spec.expected stdR (.bytes 2 true) [7] = some (.bytes [7]) := by decide
 example : Spec.expected stdR (.until [13, 10] (some 2)) [1, 13, 10] = none := by decide
 
-/-- stretch (tie-only; enforced by asyncio.Future and checked per future by the harness): over any run no
-    future id is settled twice -/
-def all_settled_once_goal : Prop :=
-  ∀ (R : Nat → Bytes → Option Nat) (c m : Nat) (ops : List Op),
-    (settledIds (allEvs (run R (init c m) ops).2)).Nodup
+/-! ### whole runs: every future is settled at most once, and exactly once if it is pending at a close -/
+
+/-- **all_settled_once**: in every run of the stream machine — any op sequence (closes at any position, reads /
+    writes / connects before and after them, transport events), any regex engine — the settle log contains
+    each future id at most once.  (Invariant: `Once.lean` — every internal transition only moves ids from
+    "pending" to "settled"; `_start_read`, `write`, `connect` hand out the fresh id `nextId`.) -/
+theorem all_settled_once :
+    ∀ (R : Nat → Bytes → Option Nat) (c m : Nat) (ops : List Op),
+      (settledIds (allEvs (run R (init c m) ops).2)).Nodup := by
+  intro R c m ops
+  rw [List.nodup_iff_count]
+  intro f
+  have h := (run_count R ops (init c m) (goodP_init c m)).2.2 f
+  have h0 : (pending (init c m)).count f = 0 := by simp [pending, init]
+  rw [h0] at h
+  split at h <;> omega
+
+example : settledIds (allEvs (run stdR (init 4 100)
+    [.readBytes 5 false, .wmode .block, .write 3, .connect, .close false, .readBytes 1 false, .close true]).2)
+    = [0, 1, 2, 3] := by decide
+
+/-- … and after a `close()` at any position of any run nothing is pending -/
+theorem none_pending_after_close (c m : Nat) (pre : List Op) (exc : Bool) :
+    pending (run R (init c m) (pre ++ [.close exc])).1 = [] := by
+  rw [run_append]
+  simp only [run]
+  exact (close_step_count R _ exc 0).2
+
+/-- **settled_exactly_once_at_close**: a future that is pending when `close()` is called (at any position of
+    any run, whatever follows) occurs exactly once in the settle log of the whole run, namely in the events
+    of that close step -/
+theorem settled_exactly_once_at_close (c m : Nat) (pre post : List Op) (exc : Bool) (f : Nat)
+    (hf : f ∈ pending (run R (init c m) pre).1) :
+    (settledIds (allEvs (run R (init c m) (pre ++ .close exc :: post)).2)).count f = 1 ∧
+    f ∈ settledIds (step R (run R (init c m) pre).1 (.close exc)).2.evs := by
+  have hle := List.nodup_iff_count.mp (all_settled_once R c m (pre ++ .close exc :: post)) f
+  have hc := (close_step_count R (run R (init c m) pre).1 exc f).1
+  have hpos : 0 < (pending (run R (init c m) pre).1).count f := List.count_pos_iff.mpr hf
+  refine ⟨?_, List.count_pos_iff.mp (by omega)⟩
+  rw [run_append] at hle ⊢
+  simp only [run, allEvs_append, allEvs_cons, settledIds_append, List.count_append] at hle ⊢
+  omega
+
+example : 1 ∈ pending (run stdR (init 4 100) [.readBytes 5 false, .wmode .block, .write 3, .connect]).1 := by decide
 
 end TornadoModel.C13
